@@ -187,7 +187,7 @@ func needsInit(path string) bool {
 		return true
 	}
 	switch path {
-	case "io", "bytes", "bufio", "image/color":
+	case "io", "bytes", "bufio", "image/color", "github.com/cocosip/go-dicom/pkg/dicom/transfer", "github.com/cocosip/go-dicom/pkg/dicom/uid":
 		return true
 	}
 	return false
